@@ -11,6 +11,11 @@ are evaluated as residuals by Coq on the model's own matrices.
 
 The Python property oracle states the identities / invariances of C13 directly on the
 implementation (search only).
+
+Round 3 (coq/Model/ReconExt.v): every GRD case also evaluates the PSD-factor contract
+Omega^T M = L^T L of the orthogonal regression; family `idx` calls the two input-check functions
+directly (guards, resolved indices compared with `=` in Coq, default parameters); family
+`reject` drives the measures into the rejection branches of StandardFlexibleScaler.fit.
 """
 import math
 import re
@@ -85,7 +90,7 @@ def gen_case(rng, quick, force=None):
     measure = rng.choice(["gre", "grd", "lre"])
     est = rng.choice(["ls", "ridge", "default"])
     alpha = 10.0 ** rng.uniform(-4, 1)
-    mode = rng.choice(["default", "train", "test", "both", "overlap", "same"])
+    mode = rng.choice(["default", "train", "test", "both", "overlap", "same", "bootstrap"])
     idx = list(range(n))
     rng.shuffle(idx)
     ntr = rng.randint(max(4, p + 2), n - 2) if n - 2 >= max(4, p + 2) else n - 2
@@ -100,9 +105,30 @@ def gen_case(rng, quick, force=None):
         train_idx, test_idx = idx[:ntr], idx[ntr // 2:]
     elif mode == "same":
         train_idx, test_idx = idx[:ntr], idx[:ntr]
+    elif mode == "bootstrap":
+        # training rows drawn with replacement (duplicated indices), test rows partly among them
+        train_idx = [idx[rng.randrange(ntr)] for _ in range(ntr)]
+        test_idx = idx[ntr:] + idx[:2]
+    # round-3 configurations: estimators WITH intercept (the training blocks are centred, so the
+    # contract is the same), integer-dtype inputs, index lists instead of arrays, n_jobs
+    icpt = est != "default" and rng.random() < 0.3
+    intdata = fam in ("gauss", "offset", "lowrank") and rng.random() < 0.12
+    list_idx = rng.random() < 0.3
+    n_jobs = 2 if (measure == "lre" and rng.random() < 0.04) else None
+    if intdata:
+        # integer-valued data passed with an integer dtype; kept only if both training blocks
+        # still have a clearly positive variance (the scaler rejects constant blocks)
+        Xi = np.rint(30 * X / max(1e-300, float(np.abs(X).max())))
+        Yi = np.rint(30 * Y / max(1e-300, float(np.abs(Y).max())))
+        tr0, _ = resolve_split(dict(X=X.tolist(), train_idx=train_idx, test_idx=test_idx))
+        if all(float(np.var(A[tr0], axis=0).sum()) > 0.5 for A in (Xi, Yi)):
+            X, Y = Xi, Yi
+        else:
+            intdata = False
     case = dict(X=X.tolist(), Y=Y.tolist(), measure=measure, est=est, alpha=alpha, mode=mode,
                 train_idx=train_idx, test_idx=test_idx, family=fam, width=width,
-                scaler=rng.choice(["none", "explicit", "duck"]))
+                scaler=rng.choice(["none", "explicit", "duck"]),
+                icpt=icpt, intdata=intdata, list_idx=list_idx, n_jobs=n_jobs)
     tr, _ = resolve_split(case)
     kmax = len(tr)
     r = rng.random()
@@ -110,6 +136,10 @@ def gen_case(rng, quick, force=None):
     if est != "ridge" and r >= 0.3 and rng.random() < 0.8:
         # least squares needs more neighbours than features to be well posed
         case["k"] = rng.randint(min(p + 2, kmax), kmax)
+    if r < 0.2 and kmax < n and rng.random() < 0.4:
+        # n_train < n_local_points <= len(X): accepted by the guard, argsort[:k] silently uses all
+        # n_train rows (Model/ReconExt.v eff_k)
+        case["k"] = rng.randint(kmax + 1, n)
     if force:
         case.update(force)
     return case
@@ -133,10 +163,11 @@ def resolve_split(case):
 # ---------------------------------------------------------------- implementation
 def make_estimator(case):
     from sklearn.linear_model import LinearRegression, Ridge
+    icpt = bool(case.get("icpt"))
     if case["est"] == "ls":
-        return LinearRegression(fit_intercept=False)
+        return LinearRegression(fit_intercept=icpt)
     if case["est"] == "ridge":
-        return Ridge(alpha=case["alpha"], fit_intercept=False)
+        return Ridge(alpha=case["alpha"], fit_intercept=icpt)
     return None
 
 
@@ -167,10 +198,12 @@ def make_scaler(case):
 
 def call_measure(case, X=None, Y=None, est="case", pointwise=True, train_idx="case", test_idx="case", k=None):
     import skmatter.metrics as M
-    X = np.array(case["X"]) if X is None else X
-    Y = np.array(case["Y"]) if Y is None else Y
-    kw = dict(train_idx=None if case["train_idx"] is None else np.array(case["train_idx"]),
-              test_idx=None if case["test_idx"] is None else np.array(case["test_idx"]))
+    idt = np.int64 if case.get("intdata") else float
+    X = np.array(case["X"]).astype(idt) if X is None else X
+    Y = np.array(case["Y"]).astype(idt) if Y is None else Y
+    aslist = (lambda v: [int(i) for i in v]) if case.get("list_idx") else np.array
+    kw = dict(train_idx=None if case["train_idx"] is None else aslist(case["train_idx"]),
+              test_idx=None if case["test_idx"] is None else aslist(case["test_idx"]))
     if train_idx != "case":
         kw["train_idx"] = train_idx
     if test_idx != "case":
@@ -182,6 +215,8 @@ def call_measure(case, X=None, Y=None, est="case", pointwise=True, train_idx="ca
     f = getattr(M, ("pointwise_" if pointwise else "") + name)
     with np.errstate(all="ignore"):
         if case["measure"] == "lre":
+            if case.get("n_jobs"):
+                kw["n_jobs"] = case["n_jobs"]
             return f(X, Y, case["k"] if k is None else k, **kw)
         return f(X, Y, **kw)
 
@@ -262,6 +297,11 @@ def hints(case):
             Xp = np.pad(Xs_tr, [(0, 0), (0, r - p)])
             Yp = np.pad(Xs_tr @ W, [(0, 0), (0, r - q)])
             h["Omega"] = orthogonal_procrustes(Xp, Yp)[0]
+            # PSD-factor contract  Omega^T M = L^T L  (Model/ReconExt.v): L = sqrt(S) V^T of M = U S V^T
+            Mx = Xp.T @ Yp
+            _, Sm, Vmt = np.linalg.svd(Mx)
+            h["L"] = np.sqrt(Sm)[:, None] * Vmt
+            h["Mscale"] = max(1.0, float(np.abs(Mx).max()))
             sm = np.linalg.svd(Xs_tr.T @ (Xs_tr @ W), compute_uv=False)
             if sm.max() == 0 or sm[min(p, q) - 1] / sm.max() < 1e-6:
                 h["gated"] = "procrustes cross-covariance rank deficient"
@@ -331,10 +371,13 @@ def case_coq(i, case, rec, h):
             v = "grd_cutoff_case_ok %s %s %s %s %s %s %s" % (
                 name, C.fmat(e["U"].tolist()), C.fmat([[x] for x in e["S"]]), C.fmat(e["V"].tolist()),
                 C.fmat(h["Omega"].tolist()), tol, obs)
+        v = "(%s) && PrimFloat.leb (omega_contract_resid_f %s %s %s) %s" % (
+            v, name, C.fmat(h["Omega"].tolist()), C.fmat(h["L"].tolist()), C.fl(eps * h["Mscale"]))
     else:
         nb = "[" + "; ".join(C.natlist(x) for x in h["nbrs"]) + "]"
         ws = "[" + "; ".join(C.fmat(w.tolist()) for w in h["Ws"]) + "]"
-        v = "lre_case_ok %s %s %s %s %s %s" % (name, nb, ws, tol, C.fl(1e-9), obs)
+        v = "lre_case_ok %s %s %s %s %s %s && nbrs_len_ok %d %d %s" % (
+            name, nb, ws, tol, C.fl(1e-9), obs, case["k"], len(h["train"]), nb)
     return defn, v
 
 
@@ -427,13 +470,12 @@ def _oracle(case, rec, rng_seed=0, deep=True):
         va, vb = np.ravel(v), np.ravel(pw)
         if not (va.shape == vb.shape and bool(np.all(np.abs(va - vb) <= 1e-7 + 2e-6 * np.maximum(np.abs(va), np.abs(vb))))):
             return "%s changes under a large uniform shift (offset 1e6 x spread)" % case["measure"]
-        # target rotation (fixed regularisation)
-        if case["measure"] != "grd" or p >= q:
-            Rq = _orth(prng, q)
-            v = call_measure(case, Y=Y @ Rq)
-            if not same(v, pw):
-                return "%s changes under a rotation of the target space" % case["measure"]
-    if smooth and case["measure"] == "lre" and case["k"] == len(tr):
+        # target rotation (fixed regularisation); GRD for every pair of widths (C13_grd_target_rotation)
+        Rq = _orth(prng, q)
+        v = call_measure(case, Y=Y @ Rq)
+        if not same(v, pw):
+            return "%s changes under a rotation of the target space" % case["measure"]
+    if smooth and case["measure"] == "lre" and case["k"] >= len(tr):
         c2 = dict(case, measure="gre")
         v = call_measure(c2)
         if not same(v, pw):
@@ -450,15 +492,227 @@ def finding_key(case, msg):
 
 # ---------------------------------------------------------------- run
 HEAD = (C.SHARD_HEAD + "From Coq Require Import List Bool PrimFloat.\nImport ListNotations.\n"
-        "From Verif Require Import ListX MExp Recon.\nOpen Scope float_scope.\n")
+        "From Verif Require Import ListX MExp Recon ReconExt.\nOpen Scope float_scope.\n")
+
+# ---------------------------------------------------------------- round 3: input checks, scaler guards
+SCALER_DEFAULTS = dict(with_mean=True, with_std=True, column_wise=False, rtol=0, atol=1e-12, copy=False)
+
+
+def gen_idx_case(rng):
+    """a direct call of check_global/local_reconstruction_measures_input"""
+    n = rng.randint(2, 14)
+    nY = n if rng.random() < 0.85 else max(1, n + rng.choice([-1, 1]))
+    k = None if rng.random() < 0.5 else rng.randint(1, n + 2)
+
+    def some_idx():
+        m = rng.randint(1, n)
+        v = [rng.randrange(n) for _ in range(m)] if rng.random() < 0.4 else rng.sample(range(n), m)
+        if rng.random() < 0.15:
+            v.append(n + rng.randint(0, 3))          # out of range: ignored by setdiff1d
+        if rng.random() < 0.5:
+            v = sorted(v)
+        return v
+    mode = rng.choice(["none", "train", "test", "both"])
+    return dict(kind="idx", n=n, nY=nY, k=k, mode=mode,
+                train_idx=some_idx() if mode in ("train", "both") else None,
+                test_idx=some_idx() if mode in ("test", "both") else None,
+                user_objects=rng.random() < 0.5, as_list=rng.random() < 0.5)
+
+
+def default_split(n):
+    from sklearn.model_selection import train_test_split as sk_split
+    tr, te = sk_split(np.arange(n), test_size=0.5, train_size=0.5, random_state=SEED0, shuffle=True)
+    return [int(i) for i in tr], [int(i) for i in te]
+
+
+def run_idx_impl(c):
+    from skmatter.metrics import _reconstruction_measures as RM
+    from skmatter.preprocessing import StandardFlexibleScaler
+    from sklearn.linear_model import Ridge
+    X, Y = np.zeros((c["n"], 2)), np.zeros((c["nY"], 1))
+    conv = (lambda v: v) if c["as_list"] else np.array
+    tr = None if c["train_idx"] is None else conv(c["train_idx"])
+    te = None if c["test_idx"] is None else conv(c["test_idx"])
+    sc, es = (StandardFlexibleScaler(column_wise=True), Ridge(alpha=2.0)) if c["user_objects"] else (None, None)
+    try:
+        if c["k"] is None:
+            out = RM.check_global_reconstruction_measures_input(X, Y, tr, te, sc, es)
+        else:
+            out = RM.check_local_reconstruction_measures_input(X, Y, c["k"], tr, te, sc, es)
+    except AssertionError:
+        return dict(raises=True)
+    except Exception as e:  # noqa
+        return dict(other_error="%s: %s" % (type(e).__name__, str(e)[:200]))
+    rtr, rte, rsc, res = out
+    bad = None
+    if c["user_objects"]:
+        if rsc is not sc or res is not es:
+            bad = "user scaler / estimator not passed through"
+    else:
+        if type(rsc).__name__ != "StandardFlexibleScaler" or rsc.get_params() != SCALER_DEFAULTS:
+            bad = "default scaler is %r" % (rsc,)
+        else:
+            ep = res.get_params()
+            want = dict(alpha_type="relative", regularization_method="cutoff", random_state=SEED0,
+                        shuffle=True, scoring="neg_root_mean_squared_error", n_jobs=1)
+            if (type(res).__name__ != "Ridge2FoldCV" or any(ep.get(a) != b for a, b in want.items())
+                    or not np.array_equal(np.asarray(ep.get("alphas")), np.geomspace(1e-9, 0.9, 20))):
+                bad = "default estimator is %r" % (res,)
+    try:
+        rtr, rte = [int(i) for i in np.ravel(rtr)], [int(i) for i in np.ravel(rte)]
+    except Exception as e:  # noqa
+        return dict(other_error="indices not integral: %s" % e)
+    if min(rtr + rte + [0]) < 0:
+        return dict(other_error="negative index returned")
+    return dict(raises=False, train=rtr, test=rte, defaults_bad=bad)
+
+
+def idx_expected(c):
+    """Python reference of Model/ReconExt.v idx_case_ok (replay / messages only)"""
+    ok = (c["n"] == c["nY"]) and (c["k"] is None or c["k"] <= c["n"])
+    if not ok:
+        return dict(raises=True)
+    tr, te = c["train_idx"], c["test_idx"]
+    if tr is None and te is None:
+        tr, te = default_split(c["n"])
+    elif tr is None:
+        tr = [i for i in range(c["n"]) if i not in set(te)]
+    elif te is None:
+        te = [i for i in range(c["n"]) if i not in set(tr)]
+    return dict(raises=False, train=list(tr), test=list(te))
+
+
+def idx_coq(c, r):
+    opt = lambda v: "None" if v is None else "(Some %s)" % C.natlist(v)  # noqa: E731
+    d = default_split(c["n"]) if c["n"] >= 2 else ([], [])
+    return "idx_case_ok %d %d %s %s %s (%s, %s) %s %s %s" % (
+        c["n"], c["nY"], "None" if c["k"] is None else "(Some %d%%nat)" % c["k"], opt(c["train_idx"]),
+        opt(c["test_idx"]), C.natlist(d[0]), C.natlist(d[1]), "true" if r["raises"] else "false",
+        C.natlist(r.get("train", [])), C.natlist(r.get("test", [])))
+
+
+def gen_reject_case(rng):
+    """a measure call whose training block is (nearly) constant or has a single row"""
+    n = rng.randint(6, 14)
+    p, q = rng.randint(1, 3), rng.randint(1, 3)
+    G = lambda r, c: np.array([[rng.gauss(0, 1) for _ in range(c)] for _ in range(r)])  # noqa: E731
+    X, Y = G(n, p), G(n, q)
+    kind = rng.choice(["constX", "constY", "tinyX", "tinyY", "smallX", "smallY", "onerow", "plain"])
+    idx = list(range(n))
+    rng.shuffle(idx)
+    ntr = rng.randint(3, n - 2)
+    tr, te = idx[:ntr], idx[ntr:]
+    cst = float(rng.randint(-3, 3))
+    if kind == "constX":
+        X[tr] = cst                    # exactly constant TRAINING block, test rows vary
+    elif kind == "constY":
+        Y[tr] = cst
+    elif kind == "tinyX":
+        X = X * (1e-7 / math.sqrt(p))  # total variance about 1e-14 < atol = 1e-12: rejected
+    elif kind == "tinyY":
+        Y = Y * (1e-7 / math.sqrt(q))
+    elif kind == "smallX":
+        X = X * 1e-5                   # total variance about 1e-10 > atol: accepted
+    elif kind == "smallY":
+        Y = Y * 1e-5
+    elif kind == "onerow":
+        tr = tr[:1]
+    measure = rng.choice(["gre", "grd", "lre"])
+    return dict(kind="reject", sub=kind, X=X.tolist(), Y=Y.tolist(), measure=measure, est="ridge", alpha=0.5,
+                train_idx=tr, test_idx=te, k=2, scaler="none", icpt=False, width="any", mode="both",
+                family="reject")
+
+
+def run_reject_impl(c):
+    try:
+        pw = call_measure(c, pointwise=True)
+        return dict(raises=False, finite=bool(np.all(np.isfinite(pw))))
+    except ValueError as e:
+        return dict(raises=True, msg=str(e)[:120])
+    except Exception as e:  # noqa
+        return dict(other_error="%s: %s" % (type(e).__name__, str(e)[:200]))
+
+
+def reject_expected(c):
+    X, Y, tr = np.array(c["X"]), np.array(c["Y"]), c["train_idx"]
+    vs = [float(np.var(A[tr], axis=0).sum()) for A in (X, Y)]
+    return len(tr) < 2 or any(v < 1e-12 for v in vs), vs
+
+
+def reject_coq(i, c, r):
+    name = "r%d" % i
+    defn = ("Definition %s : recon_in := {| c_X := %s;\n c_Y := %s;\n c_train := %s; c_test := %s;\n"
+            " c_alpha := 0; c_W := [] |}.\n" % (name, C.fmat(c["X"]), C.fmat(c["Y"]),
+                                                 C.natlist(c["train_idx"]), C.natlist(c["test_idx"])))
+    return defn, "reject_case_ok %s %s %s" % (name, C.fl(1e-12), "true" if r["raises"] else "false")
+
+
+def run_round3(ctx, stats):
+    """the idx and reject families: returns (cases, recs, mismatching indices, broken shard texts)"""
+    n_idx, n_rej = (160, 80) if ctx.quick else (1500, 600)
+    cases = [gen_idx_case(ctx.rng) for _ in range(n_idx)] + [gen_reject_case(ctx.rng) for _ in range(n_rej)]
+    recs, mism, verd, defs = [], [], [], []
+    for i, c in enumerate(cases):
+        r = run_idx_impl(c) if c["kind"] == "idx" else run_reject_impl(c)
+        recs.append(r)
+        key = c["kind"] + ("/" + c["sub"] if c["kind"] == "reject" else "/" + c["mode"])
+        stats["round3"][key] = stats["round3"].get(key, 0) + 1
+        if "other_error" in r or r.get("defaults_bad"):
+            mism.append(i)
+            continue
+        stats["round3"][c["kind"] + "_raises"] = stats["round3"].get(c["kind"] + "_raises", 0) + bool(r["raises"])
+        if c["kind"] == "idx":
+            verd.append((i, "", idx_coq(c, r)))
+        else:
+            d, v = reject_coq(i, c, r)
+            verd.append((i, d, v))
+    per = 120
+    groups = [verd[a:a + per] for a in range(0, len(verd), per)]
+    shards = [HEAD + "".join(d for _, d, _ in g)
+              + "Definition verdicts : list bool := [\n %s].\n" % ";\n ".join(v for _, _, v in g)
+              + "Eval vm_compute in (failing verdicts).\n" for g in groups]
+    outs = C.run_shards(ctx.prop, shards, par=2)
+    broken = []
+    for g, (rc, out) in zip(groups, outs):
+        lists = C.parse_nat_lists(out)
+        if rc != 0 or len(lists) != 1:
+            broken.append(out[-1500:])
+            continue
+        mism += [g[k][0] for k in lists[0]]
+    return cases, recs, sorted(set(mism)), broken, len(verd)
+
+
+def report_round3(ctx, c, r):
+    if c["kind"] == "idx":
+        exp = idx_expected(c)
+        what = ("check_%s_reconstruction_measures_input differs from its model (guards / index resolution, "
+                "Model/ReconExt.v): expected %s, observed %s" % ("global" if c["k"] is None else "local", exp, r))
+        C.report_violation(ctx, what, dict(case=c, observed=r, expected=exp,
+                                           correspondence="idx_case_ok (Model/ReconExt.v)"), found_input=False)
+        return
+    exp, vs = reject_expected(c)
+    if "other_error" in r:
+        msg, found = "raised %s" % r["other_error"], not exp
+    elif r["raises"] and not exp:
+        msg, found = "raised ValueError (%s) on training blocks of total variance %s" % (r.get("msg"), vs), True
+    elif not r["raises"] and exp:
+        msg, found = ("did not reject a training block of total variance %s / %d row(s); finite output: %s"
+                      % (vs, len(c["train_idx"]), r.get("finite")), not r.get("finite", True))
+    else:
+        msg, found = "Coq model and Python reference of the scaler guard disagree", False
+    C.report_violation(ctx, "C13: %s(%s) %s - model of the StandardFlexibleScaler.fit guards: %s" % (
+        c["measure"], c["sub"], msg, "reject" if exp else "accept"),
+        dict(case=c, observed=r, correspondence="reject_case_ok (Model/ReconExt.v)"), found_input=found)
+
 
 
 def run(ctx):
     po = C.proof_obligations(ctx.prop)
-    ncases = 400 if ctx.quick else 3000
+    ncases = 700 if ctx.quick else 3600
     cases, recs, hs = [], [], []
     stats = dict(measures={}, estimators={}, widths={}, modes={}, families={}, errors=0, gated={},
-                 no_coq_model=0, k_all=0)
+                 no_coq_model=0, k_all=0, k_beyond_train=0, intercept=0, int_dtype=0, list_indices=0,
+                 n_jobs=0, round3={})
     for _ in range(ncases):
         c = gen_case(ctx.rng, ctx.quick)
         r = run_impl(c)
@@ -470,6 +724,11 @@ def run(ctx):
             stats[key][kk] = stats[key].get(kk, 0) + 1
         stats["errors"] += "error" in r
         stats["k_all"] += (c["measure"] == "lre" and c["k"] == len(resolve_split(c)[0]))
+        stats["k_beyond_train"] += (c["measure"] == "lre" and c["k"] > len(resolve_split(c)[0]))
+        stats["intercept"] += bool(c["icpt"])
+        stats["int_dtype"] += bool(c["intdata"])
+        stats["list_indices"] += bool(c["list_idx"])
+        stats["n_jobs"] += bool(c["n_jobs"])
     mismatched = [i for i, r in enumerate(recs) if "error" in r]
     idx, texts = [], {}
     for i, (c, r) in enumerate(zip(cases, recs)):
@@ -550,7 +809,18 @@ def run(ctx):
     for (key, _cls), (_size, i, msg, corr) in sorted(pending.items(), key=lambda kv: kv[1][0]):
         C.report_violation(ctx, "C13 fails on the implementation: " + msg,
                            dict(case=cases[i], observed=recs[i], correspondence=corr), key=key, found_input=True)
-    for txt in corr_broken:
+    # round 3: the input-check functions and the scaler's rejection branches
+    r3_cases, r3_recs, r3_mism, r3_broken, r3_ran = run_round3(ctx, stats)
+    r3_seen = {}
+    for i in r3_mism:
+        # at most two replays per family and failure mode
+        c3, rr3 = r3_cases[i], r3_recs[i]
+        cls = (c3["kind"], c3.get("sub", c3.get("mode")), bool(rr3.get("raises")), "other_error" in rr3,
+               bool(rr3.get("defaults_bad")))
+        r3_seen[cls] = r3_seen.get(cls, 0) + 1
+        if r3_seen[cls] <= 2:
+            report_round3(ctx, c3, rr3)
+    for txt in corr_broken + r3_broken:
         C.report_violation(ctx, "correspondence shard did not evaluate", dict(coq_output=txt), found_input=False)
     if not po["ok"]:
         C.report_violation(ctx, "proof obligations of Properties/C13.v not discharged",
@@ -569,12 +839,13 @@ def run(ctx):
                theorems=po["theorems"], axioms=po["axioms"],
                trusted_base=C.TRUSTED_BASE_COMMON + [
                    "oracles (hints, contracts re-evaluated in Coq on the model's matrices): numpy lstsq/solve/svd, "
-                   "scipy orthogonal_procrustes, skmatter Ridge2FoldCV (cut-off form), argsort neighbour order, "
-                   "sklearn train_test_split for the default indices",
+                   "scipy orthogonal_procrustes (+ numpy svd for the factor L of the PSD contract), skmatter Ridge2FoldCV "
+                   "(cut-off form), argsort neighbour order, sklearn train_test_split for the default indices",
                    "binary64 rounding: agreement within rtol = 1e-8 + 256*eps*cond^2 (cond of the standardised training source)"],
-               evaluations=len(cases), distinct_nontrivial=nontrivial,
+               evaluations=len(cases) + len(r3_cases), distinct_nontrivial=nontrivial,
+               round3_cases_compared_in_coq=r3_ran, round3_mismatches=len(r3_mism),
                rule="distinct (measure, estimator, width class, index mode, n, p, q) whose Coq correspondence ran and agreed",
-               traces_validated_against_impl=len(idx) - len(set(mismatched) & set(idx)),
+               traces_validated_against_impl=len(idx) - len(set(mismatched) & set(idx)) + r3_ran - len(r3_mism),
                samples=[dict(case=cases[i], observed=recs[i]) for i in range(min(1, len(cases)))],
                distribution=stats, anchor_drift=changed, anchor_hashes=cur, oracle_runs=n_search,
                metamorphic_oracle_runs=n_deep)
@@ -585,6 +856,19 @@ def run(ctx):
 
 def replay(ctx, obj):
     c = obj["case"]
+    if c.get("kind") == "idx":
+        r, exp = run_idx_impl(c), idx_expected(c)
+        bad = ("other_error" in r or r.get("defaults_bad") or r["raises"] != exp["raises"]
+               or (not r["raises"] and (r["train"], r["test"]) != (exp["train"], exp["test"])))
+        print("replay:", "input check still differs: expected %s observed %s" % (exp, r) if bad
+              else "input check agrees with its model on this input now")
+        return 1 if bad else 0
+    if c.get("kind") == "reject":
+        r, (exp, vs) = run_reject_impl(c), reject_expected(c)
+        bad = "other_error" in r or r["raises"] != exp
+        print("replay:", "scaler guard still differs (expected reject=%s, observed %s, variances %s)" % (exp, r, vs)
+              if bad else "scaler guard agrees with its model on this input now")
+        return 1 if bad else 0
     r = run_impl(c)
     msg = oracle(c, r, rng_seed=0)
     print("replay:", msg or "property holds on this input now")
